@@ -39,7 +39,7 @@ Print Assumptions C02_declared_order.
    the abstracted tree -- for EVERY budget: same calls, same delivered leaves, same status (ires_abs reads
    ByReturn / ByBreak / ByEnd / ByFuel as WStopped / WBroke / WDone / WFuel); in particular no panic.
    Hypothesis: the raw invariant xstep_sim runs under (TranslateTreeFacts.hyps_reachable) *)
-From GoArt Require Import Model.Iter Model.PoolTree Proofs.PoolTreeFacts Model.GoTree Gen.IterGen Proofs.TranslateIterFacts.
+From GoArt Require Import Model.Iter Model.PoolTree Proofs.PoolTreeFacts Model.GoTree Gen.IterGen Proofs.TranslateIterBase Proofs.TranslateIterAll Proofs.TranslateIterBackward.
 Theorem C02_regenerated_all : forall fuel t ans, xtwf t ->
   ires_abs (g_all fuel (Some t) ans) = Some (walk (fun _ => Deliver) expand_fwd fuel [(tabs t, 0%nat)] ans 0 []).
 Proof. exact gen_all_eq. Qed.
